@@ -4,7 +4,9 @@
 //! recordings on stdout which the TLA+ judges read back.
 #![allow(clippy::all)]
 mod util;
+mod isolate;
 mod c01;
+mod c03;
 mod c08;
 
 fn main() {
@@ -14,10 +16,14 @@ fn main() {
     let cmd = args.first().map(|s| s.as_str()).unwrap_or("");
     let rest = &args[args.len().min(1)..];
     match cmd {
+        "isolate" => isolate::run(rest),
         "c01-drive" => c01::drive(rest),
         "c01-replay" => c01::replay(),
         "c01-loop" => c01::drive_loop(rest),
         "c01-pairs" => c01::pairs(rest),
+        "c03-tok" => c03::tok(rest),
+        "c03-gen" => c03::corpus(rest),
+        "c03-prod" => c03::prod(rest),
         "c08-replay" => c08::replay(),
         _ => {
             eprintln!("unknown sub-command {cmd:?} {rest:?}");
